@@ -16,7 +16,8 @@
 //!                                 Here `x <a>` = pg::verif::publish_stopping (the exit path of set_status).
 //!     go <T>                      release T and wait until it finishes
 //!     stop <a>                    real `stop` of actor a on the runtime + await its join handle (wait() returned)
-//!   output: [view after setup; view at the end] (events of the whole race in the last view)
+//!   output: [view after setup; (per `stop`: view before it, view after wait() returned;) view at the end];
+//!   each view carries the events handled since the previous one
 //! stdout: one Coq term per case: a list of `mkView ...` (one per op), see coq/Pg/Model.v.
 //!
 //! pg state is process-global: every case uses fresh actors and fresh scope/group names and
@@ -337,10 +338,13 @@ async fn run_seq(n: u64, line: &str, race: bool) -> String {
             outs.push(view(&c, &[]));
         }
         let first = outs.last().unwrap().clone();
-        run_race(&c, steps, &mut handles).await;
+        let mut mid = vec![];
+        run_race(&c, steps, &mut handles, &log, &mut mid).await;
         settle().await;
         let evs: Vec<Logged> = std::mem::take(&mut *log.lock().unwrap());
-        outs = vec![first, view(&c, &evs)];
+        outs = vec![first];
+        outs.extend(mid);
+        outs.push(view(&c, &evs));
     }
     // end of case: stop everything, so that nothing of this case survives in the global state
     for cell in c.cells.values() {
@@ -363,7 +367,13 @@ struct Ctl {
     cv: std::sync::Condvar,
 }
 
-async fn run_race(c: &Case, steps: &str, handles: &mut HashMap<u64, ractor::concurrency::JoinHandle<()>>) {
+async fn run_race(
+    c: &Case,
+    steps: &str,
+    handles: &mut HashMap<u64, ractor::concurrency::JoinHandle<()>>,
+    log: &Log,
+    mid: &mut Vec<String>,
+) {
     let ctl = Arc::new(Ctl::default());
     let hook_ctl = ctl.clone();
     pg::verif::set_point_hook(Some(Arc::new(move |name: &'static str| {
@@ -444,12 +454,19 @@ async fn run_race(c: &Case, steps: &str, handles: &mut HashMap<u64, ractor::conc
             }
             "stop" => {
                 // the REAL exit of the actor on the runtime: stop, wait() returned, monitors settled
+                // two extra views: just before the stop (events so far) and right after wait() returned
+                // (events of the exit only)
                 let a = u(&w[1]);
+                settle().await;
+                let evs: Vec<Logged> = std::mem::take(&mut *log.lock().unwrap());
+                mid.push(view(c, &evs));
                 c.cells[&a].stop(None);
                 if let Some(h) = handles.remove(&a) {
                     h.await.unwrap();
                 }
                 settle().await;
+                let evs: Vec<Logged> = std::mem::take(&mut *log.lock().unwrap());
+                mid.push(view(c, &evs));
             }
             other => panic!("unknown race step {other}"),
         }
